@@ -41,6 +41,7 @@ LINE == <<47, 47, 32, 121, 10>>                  \* // y NL
 LINECR == <<47, 47, 13, 43, 49, 10>>             \* // CR +1 NL  (only the line feed ends a line comment)
 \* the single space is the baseline rendering (Plain), so the small set spends its four slots on the other kinds
 Seps == CASE SepSet = "small" -> {<<>>, IDSP, BLK3, LINE}
+          [] SepSet = "six" -> {<<>>, NLs, NBSP, BLKX, BLKS, LINECR}
           [] SepSet = "medium" -> {<<>>, SP, TAB, NLs, VT, NBSP, BLK, BLKX, BLKS, LINE, LINECR}
           [] OTHER -> {<<>>, SP, TAB, NLs, VT, NBSP, EMSP, IDSP, BLK, BLKX, BLK3, BLKS, LINE, LINECR, SP \o BLK, BLK \o SP}
 
